@@ -2,8 +2,10 @@ package node
 
 import (
 	"fmt"
+	"io"
 	"net"
 	"os"
+	"sync/atomic"
 	"testing"
 	"time"
 
@@ -22,7 +24,7 @@ import (
 // fewer) items fit and must all be kept, in order - however the channel got into this state.
 func TestC13PartialRecovery(t *testing.T) {
 	rec := evid.New(t, "C13", "2..3 custom transports; the victim's transport blocks, 70..120 items overflow its 64-item backlog (the healthy links receive all of them), then it accepts exactly k = 6..30 writes and blocks again with a writer inside; k-2-s items (s = 0..2) are written - they fit into the freed places; then the transport recovers: the victim's wire must carry every one of them, in order, after the kept items of the overflow; non-trivial = always; distinct by hash of the parameters")
-	rec.Require("backlog-between-half-full-and-full-after-a-partial-recovery")
+	rec.Require("backlog-between-half-full-and-full-after-a-partial-recovery", "stalled-serial-device-with-a-short-write-timeout")
 	evid.Check(t, rec, evid.N(40, 200), func(t *rapid.T) {
 		drawNodeInit(t)
 		nch := rapid.IntRange(2, 3).Draw(t, "nch")
@@ -30,7 +32,15 @@ func TestC13PartialRecovery(t *testing.T) {
 		k := rapid.IntRange(6, 30).Draw(t, "writes_accepted_in_between")
 		m := k - 2 - rapid.IntRange(0, 2).Draw(t, "slack")
 		desc := fmt.Sprintf("channels=%d overflowItems=%d acceptedInBetween=%d thenWritten=%d", nch, over, k, m)
-		if err := watchdog(scenarioLimit, func() error { return runC13Partial(nch, over, k, m, 0) }); err != nil {
+		partialVictimSerial = rapid.IntRange(0, 2).Draw(t, "stalled_link_is_a_serial_device") == 0
+		desc += fmt.Sprintf(" stalledLinkIsSerial=%v", partialVictimSerial)
+		err := watchdog(scenarioLimit, func() error { return runC13Partial(nch, over, k, m, 0) })
+		serial := partialVictimSerial
+		partialVictimSerial = false
+		if serial {
+			rec.Class("stalled-serial-device-with-a-short-write-timeout", 1)
+		}
+		if err != nil {
 			evid.ReplayNote("C13", "TestC13PartialRecovery", desc+"\n"+err.Error())
 			t.Fatalf("%s\n%v", desc, err)
 		}
@@ -45,6 +55,10 @@ func TestC13PartialRecovery(t *testing.T) {
 // any; the queue of a channel is the application's all the same).
 var partialStreamRequests bool
 
+// partialVictimSerial: the link that stalls is a serial device (hooked opener) and the node has a write timeout far
+// shorter than the stall - a serial port has no write deadline, the write simply takes as long as it takes.
+var partialVictimSerial bool
+
 func runC13Partial(nch, over, k, m, how int) error {
 	pipes := make([]*sim.Pipe, nch)
 	var endpoints []gomavlib.EndpointConf
@@ -52,8 +66,24 @@ func runC13Partial(nch, over, k, m, how int) error {
 		pipes[i] = sim.NewPipe()
 		endpoints = append(endpoints, gomavlib.EndpointCustom{ReadWriteCloser: pipes[i]})
 	}
+	wto := time.Duration(0)
+	if partialVictimSerial {
+		dev := fmt.Sprintf("/dev/ttyC13P_%d", atomic.AddInt64(&serialCounter, 1))
+		opens := int64(0)
+		serialDevices.Store(dev, func() (io.ReadWriteCloser, error) {
+			if atomic.AddInt64(&opens, 1) == 1 {
+				return sim.NewPipe(), nil // the existence check of the endpoint
+			}
+			return pipes[0], nil
+		})
+		serialPipeOf.Store(dev, pipes[0])
+		defer serialDevices.Delete(dev)
+		defer serialPipeOf.Delete(dev)
+		endpoints[0] = gomavlib.EndpointSerial{Device: dev, Baud: 57600}
+		wto = 30 * time.Millisecond
+	}
 	n := &gomavlib.Node{Endpoints: endpoints, Dialect: ardupilotmega.Dialect, OutVersion: gomavlib.V2, OutSystemID: nodeSys, HeartbeatDisable: true,
-		StreamRequestEnable: partialStreamRequests}
+		StreamRequestEnable: partialStreamRequests, WriteTimeout: wto}
 	if err := initNode(&n); err != nil {
 		return fmt.Errorf("BROKEN: %v", err)
 	}
@@ -89,6 +119,9 @@ func runC13Partial(nch, over, k, m, how int) error {
 	}
 	if !pipes[1].WaitWrites(counter, bound) || !victim.WaitParkedWriter(bound) {
 		return fmt.Errorf("BROKEN: first stall not reached")
+	}
+	if wto > 0 {
+		time.Sleep(4 * wto) // the device stays busy for several write timeouts
 	}
 	// a moment of recovery: exactly k writes pass, then a writer is inside the transport again
 	victim.AllowWrites(k)
